@@ -69,12 +69,27 @@ SlotFold(D, u, cs, st, eps, dv) ==
   ELSE LET s == SuccIn(D, u, cs[1], st, eps, dv)
        IN  IF ~s.ok THEN [ok |-> FALSE, st |-> st] ELSE SlotFold(D, u, Tail(cs), s.st, eps, dv)
 
+\* atoms added / deleted and fluents written by the effects of call c that fire in st
+AddsDels(D, u, c, st, eps) ==
+  LET a == ActionNamed(D, c.act)
+      S == SimpleOf({g \in Groups(a.eff, EnvOfCall(a, c.args), u) : GroupTruth(g, st, u, eps, {}) = "T"})
+  IN  [adds |-> AddsOf(S), dels |-> DelsOf(S), upds |-> {Target(x) : x \in UpdsOf(S)}]
+
+\* what the converter's interference test does see: an atom added by one member and deleted
+\* by another, a fluent written by two members
+NoEffectClash(D, u, cs, st, eps) ==
+  \A i, j \in DOMAIN cs : i # j =>
+     LET x == AddsDels(D, u, cs[i], st, eps)
+         y == AddsDels(D, u, cs[j], st, eps)
+     IN  x.adds \cap y.dels = {} /\ x.upds \cap y.upds = {}
+
 RECURSIVE RunJoint(_, _, _, _, _, _)
 \* the joint plan executed step by step; each step must be applicable and commute.
 \* Known deviation "ConvertNonCommuting": the converter's interference test never looks
 \* at preconditions, so it may put into one step members that are all applicable in the
 \* step's pre-state but do not commute (one deletes / adds what another requires); such a
-\* step is then judged as the library executes it, in slot order.
+\* step is then judged as the library executes it, in slot order.  The deviation does not
+\* cover clashes between the members' effects, which the converter does test.
 RunJoint(D, u, joint, st, eps, dv) ==
   IF joint = <<>> THEN [ok |-> TRUE, st |-> st]
   ELSE LET cs == Active(joint[1])
@@ -82,7 +97,7 @@ RunJoint(D, u, joint, st, eps, dv) ==
        IN
        IF allApp /\ Commute(D, u, cs, st, eps, dv)
        THEN RunJoint(D, u, Tail(joint), SeqRun(D, u, cs, st, eps, dv).st, eps, dv)
-       ELSE IF allApp /\ "ConvertNonCommuting" \in dv /\ SlotFold(D, u, cs, st, eps, dv).ok
+       ELSE IF allApp /\ "ConvertNonCommuting" \in dv /\ NoEffectClash(D, u, cs, st, eps) /\ SlotFold(D, u, cs, st, eps, dv).ok
        THEN RunJoint(D, u, Tail(joint), SlotFold(D, u, cs, st, eps, dv).st, eps, dv)
        ELSE [ok |-> FALSE, st |-> st]
 
@@ -124,10 +139,6 @@ EmptyStep(agents) == [j \in DOMAIN agents |-> Nop]
 \* "syntactic-no-predel" (negative control): applicable, and no add/delete
 \* clash between the members' effects - but a member may delete another
 \* member's precondition.
-AddsDels(D, u, c, st, eps) ==
-  LET a == ActionNamed(D, c.act)
-      S == SimpleOf({g \in Groups(a.eff, EnvOfCall(a, c.args), u) : GroupTruth(g, st, u, eps, {}) = "T"})
-  IN  [adds |-> AddsOf(S), dels |-> DelsOf(S), upds |-> {Target(x) : x \in UpdsOf(S)}]
 
 OkToAdd(mode, D, u, cs, c, st, eps) ==
   /\ AppIn(D, u, c, st, eps, {}) = "T"
